@@ -193,4 +193,19 @@ theorem ratquadProfile_range {alpha ls dist : ℝ} (ha : 0 < alpha) (hls : 0 < l
   refine ⟨Real.rpow_pos_of_pos (by linarith) _, ?_⟩
   exact Real.rpow_le_one_of_one_le_of_nonpos hb (by linarith)
 
+/-- Every kernel expression is symmetric in its two arguments. -/
+theorem cov_k_symm (c : Cov ℝ) (x y : List ℝ) : c.k x y = c.k y x := by
+  induction c generalizing x y with
+  | matern32 ls ad => simp only [Cov.k, distance_symm]
+  | matern52 ls ad => simp only [Cov.k, distance_symm]
+  | expquad ls ad => simp only [Cov.k, distance_symm]
+  | exponential ls ad => simp only [Cov.k, distance_symm]
+  | ratquad a ls ad => simp only [Cov.k, distance_symm]
+  | linear ls ad => simp only [Cov.k, dot_comm]
+  | add l r ad ihl ihr => simp only [Cov.k]; rw [ihl, ihr]
+  | addC l c ad ih => simp only [Cov.k]; rw [ih]
+  | mul l r ad ihl ihr => simp only [Cov.k]; rw [ihl, ihr]
+  | mulC l c ad ih => simp only [Cov.k]; rw [ih]
+  | pow l p ad ih => simp only [Cov.k]; rw [ih]
+
 end Mellon
